@@ -12,6 +12,7 @@ import FqModel.Total
   `cast <int|float|big|bool|string|indent> <V>` TAB `ok <V>` | `fail` | `panic`     gojqx.CastFn
   `opts <V>` TAB `ok depth=… …` | `err` | `panic`                                  OptionsFromValue
   `preview <V string> n:<string_truncate>` TAB `ok <runes kept>` | `panic`        previewValue (preview.go)
+  `asciiw|hexpw <width> <start> <l,l,…|l,…>` TAB `ok <bytes written> <len buf>` | `panic`   the dump's column writers
   `optsfmt <V>` TAB `ok <size prefix|->` | `err` | `panic`       the bits format closure it returns, run
 
   V is the token grammar of harness/cmd/c13/pool.go.
@@ -573,6 +574,24 @@ def previewVerdict (stok ltok obs : String) : String :=
     verdict model obs
   | _, _ => "BADOP token"
 
+/-- `asciiw W S l,l,…|l,…` / `hexpw …`: the column writers driven directly -/
+def parseChunks (s : String) : Option (List (List Nat)) :=
+  (s.splitOn "|").mapM fun ch => (ch.splitOn ",").mapM (·.toNat?)
+
+def writerVerdict (kind sw ss schunks obs : String) : String :=
+  match sw.toNat?, ss.toNat?, parseChunks schunks with
+  | some width, some start, some chunks =>
+    if obs == "panic" then s!"PROPFAIL {kind}-index-out-of-range" else
+    let r := if kind == "asciiw" then writeAll asciiWrite (asciiNew width start) 0 chunks
+             else writeAll hexpairWrite (hexpairNew width start) 0 chunks
+    let model := match r with
+      | .ok (h, n) => s!"ok {n} {h.bufLen}"
+      | .err _ => "err"
+      | .panic _ => "panic"
+      | .resource _ => "resource"
+    verdict model obs
+  | _, _, _ => "BADOP token"
+
 def stepC13 (op obs : String) : String :=
   match words op with
   | "call" :: fn :: toks => if toks.isEmpty then "BADOP call" else callVerdict fn toks obs
@@ -580,6 +599,8 @@ def stepC13 (op obs : String) : String :=
   | ["opts", tok] => optsVerdict tok obs
   | ["optsfmt", tok] => optsfmtVerdict tok obs
   | ["preview", stok, ltok] => previewVerdict stok ltok obs
+  | ["asciiw", w, st, ch] => writerVerdict "asciiw" w st ch obs
+  | ["hexpw", w, st, ch] => writerVerdict "hexpw" w st ch obs
   | _ => "BADOP op"
 
 def main : IO Unit := run stepC13
